@@ -247,6 +247,9 @@ def features(tree):
                     out.add("ifexp_tight")
                 if isinstance(c, ast.Lambda):
                     out.add("lambda_tight")
+                if isinstance(c, (ast.Compare, ast.BoolOp)) and t in (ast.BinOp, ast.UnaryOp, ast.Compare, ast.Attribute, ast.Subscript) \
+                        and not (t is ast.UnaryOp and isinstance(node.op, ast.Not)):
+                    out.add("truth_value_operand")
         if t is ast.UnaryOp and isinstance(node.operand, ast.BinOp) and isinstance(node.operand.op, ast.Pow):
             out.add("unary_under_pow")
         if t is ast.Lambda or t is ast.FunctionDef:
@@ -301,7 +304,7 @@ def features(tree):
 PRECEDENCE_FEATURES = {
     "pow", "unary_under_pow", "ifexp_tight", "lambda_tight", "compare_chain", "call_star", "call_dstar", "display_star",
     "fstring", "mixed_binop", "mixed_boolop", "lambda_kwonly", "lambda_posonly", "lambda_vararg", "lambda_kwarg",
-    "slice_step", "tuple_slice", "comp_multi", "dict_unpack", "walrus", "attr_on_int", "matmul",
+    "slice_step", "tuple_slice", "comp_multi", "dict_unpack", "walrus", "attr_on_int", "matmul", "truth_value_operand",
 }
 
 
@@ -530,7 +533,7 @@ class ExprGen:
 
     # -- int ----------------------------------------------------------------------------
     def g_int(self, d, sc, safe):
-        k = self.n(12)
+        k = self.n(13)
         g = self.gen
         if k <= 2:
             op = self.pick(ARITH)
@@ -603,6 +606,17 @@ class ExprGen:
             return node
         if k == 10:
             return _call("ord", [_sub(_const("abc"), _const(self.n(3)))])
+        if k == 11:
+            # a truth value used as a number: comparison / boolean operation as operand of arithmetic, unary minus, attribute
+            w = self.n(4)
+            b = g("bool", d - 1, sc, False)
+            if w == 0:
+                return ast.BinOp(left=b, op=self.pick([ast.Add, ast.Mult, ast.Sub])(), right=g("int", d - 1, sc, False))
+            if w == 1:
+                return ast.BinOp(left=g("int", d - 1, sc, False), op=self.pick([ast.Add, ast.Mult, ast.BitAnd])(), right=b)
+            if w == 2:
+                return ast.UnaryOp(op=self.pick([ast.USub, ast.Invert])(), operand=b)
+            return _attr(b, self.pick(["real", "numerator"]))
         return ast.BinOp(left=g("int", d - 1, sc, False), op=self.pick([ast.Add, ast.Sub, ast.Mult])(),
                          right=g("int", d - 1, sc, False))
 
@@ -718,8 +732,13 @@ class ExprGen:
 
     # -- bool ---------------------------------------------------------------------------
     def g_bool(self, d, sc, safe):
-        k = self.n(9)
+        k = self.n(10)
         g = self.gen
+        if k == 9:
+            # truth values compared with each other: a comparison as operand of a comparison
+            ops = [self.pick([ast.Eq, ast.NotEq, ast.Is, ast.IsNot, ast.Lt])() for _ in range(self.pick([1, 1, 2]))]
+            return ast.Compare(left=g("bool", d - 1, sc, False), ops=ops,
+                               comparators=[g("bool", d - 1, sc, False) for _ in ops])
         if k <= 1:
             ty = self.pick(["int", "int", "str", "num"])
             ops = [ast.Lt, ast.LtE, ast.Gt, ast.GtE, ast.Eq, ast.NotEq] if ty != "num" else [ast.Eq, ast.NotEq]
